@@ -50,6 +50,7 @@ type TypeSpec struct {
 	Invariants []*Clause
 	GhostField map[string]string // name -> sort
 	GhostZero  map[string]bool   // ghost fields that are 0 in a zero-valued object
+	CloseOnly  map[string]bool   // channel fields that are only ever closed, never sent on
 	Monitors   []*MonitorSpec
 	Callbacks  map[string]*Contract // contracts of function-typed fields
 	File       string
@@ -121,7 +122,7 @@ func (ss *SpecSet) LoadFile(path, pkgPath string, trusted bool) error {
 }
 
 var clauseKW = map[string]bool{"requires": true, "ensures": true, "modifies": true, "instantiate": true, "loop": true,
-	"ghost": true, "callback": true, "modifies-if": true, "panics-iff": true, "panics-when": true, "invariant": true, "opt": true, "monitor": true, "assert": true,
+	"ghost": true, "callback": true, "modifies-if": true, "closeonly": true, "panics-iff": true, "panics-when": true, "invariant": true, "opt": true, "monitor": true, "assert": true,
 	"func": true, "assume-func": true, "type": true, "assumes": true, "global-invariant": true, "axiom": true, "specfun": true, "global": true, "sentinel": true, "package": true, "end": true}
 
 func (ss *SpecSet) parse(src, file, pkgPath string, trusted bool) error {
@@ -293,6 +294,16 @@ func (ss *SpecSet) parse(src, file, pkgPath string, trusted bool) error {
 				curT.Invariants = append(curT.Invariants, cl)
 			} else {
 				return fmt.Errorf("%s:%d: invariant outside type", file, l.no)
+			}
+		case "closeonly":
+			if curT == nil {
+				return fmt.Errorf("%s:%d: closeonly outside type", file, l.no)
+			}
+			if curT.CloseOnly == nil {
+				curT.CloseOnly = map[string]bool{}
+			}
+			for _, f := range strings.Fields(strings.ReplaceAll(rest, ",", " ")) {
+				curT.CloseOnly[f] = true
 			}
 		case "ghost":
 			// in type: ghost name Sort ; global: "global ghost" uses 'global'
